@@ -10,7 +10,7 @@ from harness.props.vbsutil import read_all, read_pattern, render_end
 PROP = 'C10'
 RULE = ("IPM files of n records (quick n <= 6, thorough n <= 40) x every position k in 1..n x fault kind {truncated record, "
         "oversized length, undecodable MTI, unknown bitmap bit, bad field length, bad typed value, bad PDS content, bad ICC "
-        "content, record too short for MTI + bitmap} x {VBS, 1014} x {latin_1, cp500}, truncation at every byte of record k (n <= 6), records with space-padded elements, faulty records of 4500 / 5990 bytes, elements declaring more than the record holds, readers with a caller-supplied configuration (a bit the packaged configuration knows but the caller's does not), the reader consumed as one loop / next() then a loop / two loops / next() only: records 1..k-1 must be delivered, then MciIpmDataError with "
+        "content, record too short for MTI + bitmap, records and numeric elements made of blanks only, a length with the top bit set} x {VBS, 1014} x {latin_1, cp500}, truncation at every byte of record k (n <= 6), records with space-padded elements, faulty records of 4500 / 5990 bytes, elements declaring more than the record holds, readers with a caller-supplied configuration (a bit the packaged configuration knows but the caller's does not), the reader consumed as one loop / next() then a loop / two loops / next() only: records 1..k-1 must be delivered, then MciIpmDataError with "
         "record_number == k and the raw bytes of record k (length prefix included) as context; the operator report must "
         "name record k. Non-trivial = k > 1 or a message-level fault; distinct = distinct (n, k, kind, format, codec)")
 TRUSTED = c01.TRUSTED + ["Model/Vbs.lean `ipmReadAll` models IpmReader.__next__ (error wrapping with record number and "
@@ -20,7 +20,8 @@ ASSUMPTIONS = c01.ASSUMPTIONS
 SHORT = [0]      # how many bitmap bytes the 'shortrec' record keeps (set per case)
 KINDS = ['truncated', 'oversized', 'badmti', 'unknownbit', 'badlen', 'badtyped', 'badpds', 'badicc', 'shortrec',
          'shortfixed', 'shortvar2', 'shortvar3', 'surplus', 'unknownbit_end', 'unknownbit_128', 'baddate_hour', 'baddate_month',
-         'foreignlen2', 'foreignlen3', 'foreignmti', 'zonedpos', 'zonedneg', 'zonedbrace']
+         'foreignlen2', 'foreignlen3', 'foreignmti', 'zonedpos', 'zonedneg', 'zonedbrace',
+         'blank40', 'blank20', 'blank40short', 'blanktyped', 'blanktyped8', 'nultyped']
 
 
 def custom_config():
@@ -76,6 +77,20 @@ def bad_record(kind, codec):
         return e('1240') + bm([4, 71]) + e('000000002500' + '0000012R')
     if kind == 'zonedbrace':
         return e('1240') + bm([4]) + e('00000000250}')
+    # records and elements that hold nothing but blanks / filler: x'40' is the EBCDIC blank (and the 1014 pad byte), x'20'
+    # the ASCII blank — a record of blanks has no numeric MTI, a numeric element of blanks is no number
+    if kind == 'blank40':
+        return b'\x40' * 30
+    if kind == 'blank20':
+        return b'\x20' * 30
+    if kind == 'blank40short':
+        return b'\x40' * 3
+    if kind == 'blanktyped':
+        return e('1240') + bm([4]) + e(' ' * 12)
+    if kind == 'blanktyped8':
+        return e('1644') + bm([24, 71]) + e('697' + ' ' * 8)
+    if kind == 'nultyped':
+        return e('1240') + bm([4]) + b'\x00' * 12
     if kind == 'badpds':
         return e('1240') + bm([48]) + e('0090023xyz')
     if kind == 'shortrec':       # a record too short to hold MTI + bitmap, with a perfectly numeric MTI
@@ -134,7 +149,11 @@ def build(case):
         item = struct.pack('>I', len(r)) + r
         if i == k and kind == 'oversized':
             item = struct.pack('>I', 6001 + case.get('extra', 0)) + r
-            if case.get('rdw'):
+            if case.get('rdw') == 'topbit':
+                # the record's own length with the top bit set: 2**31 + len — far beyond any maximum, whatever a
+                # "spanned record" convention would make of that bit
+                item = struct.pack('>I', 0x80000000 | len(r)) + r
+            elif case.get('rdw'):
                 # an over-long length that another convention would read as fitting: the record's own length (+4, +0)
                 # in the HIGH two bytes and zeros in the low two (an IBM record descriptor word), or byte-swapped
                 item = {'rdw4': struct.pack('>HH', len(r) + 4, 0), 'rdw0': struct.pack('>HH', len(r), 0),
@@ -243,7 +262,7 @@ def explore(run, tier):
                         cases.append(c)
                         if kind == 'oversized':
                             cases.append(dict(c, extra=2 ** 31))
-                            for rdw in ('rdw4', 'rdw0', 'little', 'rdw4le'):
+                            for rdw in ('rdw4', 'rdw0', 'little', 'rdw4le', 'topbit'):
                                 cases.append(dict(c, rdw=rdw))
                             # length values that look like filler / text: 0x40404040, 0x20202020, 0xFFFFFFFF, 0x00004040
                             for val in (0x40404040, 0x20202020, 0xFFFFFFFF, 0x00004040, 0xF0F0F0F0):
